@@ -3,7 +3,7 @@
 set -e
 cd "$(dirname "$0")"
 export CARGO_NET_OFFLINE=true CARGO_TARGET_DIR=/verif/.build/target RUSTFLAGS="--cfg kismet_verif"
-mkdir -p .build evidence replays
+mkdir -p .build evidence replays ocaml/gen
 [ -f tools/gen_constants.py ] && python3 tools/gen_constants.py || true
 (cd coq && coq_makefile -f _CoqProject -o Makefile >/dev/null && timeout 7200 make -j16)
 ./ocaml/build.sh
